@@ -165,7 +165,7 @@ func genC09(t *rapid.T) *C09Case {
 		r := &Rule{ID: id, Phase: rapid.IntRange(1, 2).Draw(t, "capphase"), Disr: "pass", Capture: true,
 			Targets: []Target{{Var: "ARGS_GET", Key: "k"}}, // a name of its own: its values are stored in request order
 			Op:      "rx", Arg: rapid.SampledFrom([]string{"^(?:x(\\d)|y|X)$", "^x(\\d)?", "(x)|(y)", "^(z)?x"}).Draw(t, "cappat"),
-			Acts:    []string{"setvar:tx.lastcap=%{tx.1}", rapid.SampledFrom([]string{"setvar:tx.cap0=%{tx.0}", "setvar:tx.cap2=%{tx.2}"}).Draw(t, "capact")}}
+			Acts: []string{"setvar:tx.lastcap=%{tx.1}", rapid.SampledFrom([]string{"setvar:tx.cap0=%{tx.0}", "setvar:tx.cap2=%{tx.2}"}).Draw(t, "capact")}}
 		pos := rapid.IntRange(1, len(items)).Draw(t, "cappos")
 		items = append(items[:pos], append([]Item{{Rule: r}}, items[pos:]...)...)
 		c.Captures = true
